@@ -38,6 +38,9 @@ SPECIAL_MC = {
     "C10": ("MCDamage", {"quick": [dict(DAMAGE_BASE, ExcuseF7="@F7"), dict(DAMAGE_BASE, WalN=1, ExcuseF7="@F7")],
                          "thorough": [dict(DAMAGE_BASE, MaxOps=4, WalN=n, MaxCrashes=2, ExcuseF7="@F7") for n in (1, 2, 3)]},
             ["Inv_C10"]),
+    "C14": ("MCFault", {"quick": [dict(FAULT_BASE), dict(FAULT_BASE, WalN=1)],
+                        "thorough": [dict(FAULT_BASE, MaxOps=4, WalN=n, MaxFaults=f) for n, f in ((1, 1), (2, 1), (3, 1), (2, 2))]},
+            ["Inv_C14_Contained", "Inv_C14_Reopen", "Inv_C14_OpenOk", "Inv_C12"]),
 }
 
 
